@@ -227,4 +227,262 @@ def runMouseEnter (body : Stmt) (e : EOracle) (fuel : Nat) (s : St) (w : Id) : O
 def runMouseHandleEvent (body : Stmt) (e : EOracle) (fuel : Nat) (s : St) (col row : Int) (lf : Nat) : Option (St × Bool) :=
   runFocusHandleEvent body e fuel s (.mouse col row) lf
 
+/-! ## Round 4: `mouseHandler.update`, `focusHandler.updatePath`, `App.handleCommand`
+
+A second layer over the interpreter above (which is left as it is: the execution lemmas of the five
+dispatcher bodies are about it).  It adds what these three bodies need and falls back to `atom` /
+`evBool` for everything else (handler calls, `if err != nil { return err }`, `app.handleCommand(cmd)`,
+`return`):
+
+* hit results as whole STRUCTS — `h1 == h2` in `update` compares column, row and widget —, lists of them
+  (`hits := []hitResult{}`, `hits = hitTest(s, hits, uint16(m.mouse.Col), uint16(m.mouse.Row))` = the model's
+  `hitTest` appended, `m.lastHits = hits`), surfaces (`ss := NewSubSurface(0, 0, s)`,
+  `ss.containsPoint(m.mouse.Col, m.mouse.Row)` = the model's `containsPoint 0 0 w h`), `m.mouse == nil`;
+* nested `range` loops with a LABELLED `continue L` (the translator resolves the label to the number of
+  loops to leave: `Ctl`-value `contOut n`);
+* `f.lastFrame = root` (in `updatePath` the receiver is the focus handler: the model's `fhFrame`),
+  `if !f.findPath() { … }` (the call sets `f.path`), `_ = f.focusWidget(app, f.root)` (the model's
+  `eFocusWidget`, error dropped);
+* the type switch `switch cmd := cmd.(type)` over the dynamic type of a command value, `range cmd` over a
+  `BatchCmd` / `[]Command`, the RECURSIVE call `a.handleCommand(c)` (runs the body again), the flag
+  assignments, `a.fh.focusWidget(a, cmd)` with `if err != nil { log.Error(…); return }`, the calls into
+  vaxis (`a.vx.SetTitle(string(cmd))` …: the effect `other k`).
+-/
+
+/-- The additional locals. -/
+structure VX where
+  hitl : List (String × List Hit) := []
+  hit  : List (String × Hit) := []
+  tree : List (String × STree) := []
+  /-- what a recursive `a.handleCommand(c)` does -/
+  self : St → Cmd → Option St := fun _ _ => none
+
+structure VMX where
+  vm : VM
+  x  : VX
+
+inductive CtlX where
+  | norm | brk | cont
+  | ret (err : Bool)
+  | contOut (n : Nat)         -- a labelled `continue L` that still has to leave `n` loops
+deriving DecidableEq, Repr
+
+def liftCtl : Ctl → CtlX
+  | .norm => .norm
+  | .brk => .brk
+  | .cont => .cont
+  | .ret b => .ret b
+
+abbrev ResX := Option (VMX × CtlX)
+
+/-- Run a statement of the first layer. -/
+def liftRes (m : VMX) (r : Res) : ResX := r.map (fun r => ({ m with vm := r.1 }, liftCtl r.2))
+
+/-- A list of hit results as structs: `r.lastHits`, or a local (`hits`). -/
+def evHits (m : VMX) (n : String) : Option (List Hit) :=
+  if n = "r.lastHits" then some m.vm.s.lastHits else find m.x.hitl n
+
+/-- Bind a hit-result local `x`: the struct, and its widget `x.w` as the receiver of a handler call. -/
+def bindHit (m : VMX) (x : String) (h : Hit) : VMX :=
+  { vm := { m.vm with ids := (x ++ ".w.HandleEvent", h.w) :: m.vm.ids },
+    x := { m.x with hit := (x, h) :: m.x.hit } }
+
+/-- Bind a surface local `x` (a `SubSurface` at origin (0,0) is its surface). -/
+def bindTree (m : VMX) (x : String) (t : STree) : VMX :=
+  { m with x := { m.x with tree := (x, t) :: (x ++ ".containsPoint", t) :: m.x.tree } }
+
+/-- The dynamic type of a command value, as the `case` labels of `handleCommand`'s type switch spell it (the
+    model's `other k` stands for the four commands that only call into vaxis). -/
+def cmdType : Cmd → String
+  | .nil => "nil"
+  | .redraw => "RedrawCmd"
+  | .refresh => "RefreshCmd"
+  | .quit => "QuitCmd"
+  | .consume => "ConsumeEventCmd"
+  | .focus _ => "FocusWidgetCmd"
+  | .debug => "DebugCmd"
+  | .other k => if k % 4 = 0 then "SetTitleCmd" else if k % 4 = 1 then "SetMouseShapeCmd"
+                else if k % 4 = 2 then "CopyToClipboardCmd" else "SendNotificationCmd"
+  | .batch _ => "BatchCmd"
+  | .slice _ => "[]Command"
+
+def labelTok : Expr → String
+  | .var s => s
+  | .lit s => s
+  | _ => "?"
+
+/-- The observation recorded when the arm of a flag command is entered (`Model.Vxfw.execAtom` records one
+    entry per command; the `DebugCmd` arm sets two flags). -/
+def armEff : Cmd → List Entry
+  | .redraw => [.eff .redraw]
+  | .refresh => [.eff .refresh]
+  | .quit => [.eff .quit]
+  | .consume => [.eff .consume]
+  | .debug => [.eff .debug]
+  | _ => []
+
+mutual
+/-- Nesting depth of batches (= the recursion depth of `handleCommand` on itself). -/
+def cmdDepth : Cmd → Nat
+  | .batch l => cmdDepthL l + 1
+  | .slice l => cmdDepthL l + 1
+  | _ => 0
+def cmdDepthL : List Cmd → Nat
+  | [] => 0
+  | c :: r => max (cmdDepth c) (cmdDepthL r)
+end
+
+def evBoolX (m : VMX) : Expr → Option Bool
+  | .bin "==" (.var "r.mouse") (.var "nil") => some m.vm.s.mouse.isNone
+  | .arg (.arg (.call (.var fn)) (.var "r.mouse.Col")) (.var "r.mouse.Row") =>      -- `ss.containsPoint(m.mouse.Col, m.mouse.Row)`
+      match m.vm.s.mouse, find m.x.tree fn with
+      | some (col, row), some t => some (containsPoint 0 0 t.w t.h col row)
+      | _, _ => none
+  | .bin "==" (.var a) (.var b) =>
+      match find m.x.hit a, find m.x.hit b with
+      | some x, some y => some (decide (x = y))            -- two hit results (structs)
+      | _, _ => evBool m.vm (.bin "==" (.var a) (.var b))
+  | c => evBool m.vm c
+
+def setS (m : VMX) (s : St) : VMX := { m with vm := { m.vm with s := s } }
+
+/-- A call into vaxis with the payload of the command `c` (`SetTitle(string(cmd))` …): the effect `other k`. -/
+def vxCall (m : VMX) (c : String) : ResX :=
+  match find m.vm.cmds c with
+  | some (.other k) => some (setS m { m.vm.s with trace := m.vm.s.trace ++ [.eff (.other k)] }, .norm)
+  | _ => none
+
+def atomX (e : EOracle) (fuel : Nat) (ev : Ev) (m : VMX) (l : Line) : ResX :=
+  match l.kind, l.e1, l.e2 with
+  | .continueS, .var _, .int n => some (m, .contOut n)            -- `continue L`, `n` loops further out
+  | .returnS, .none, _ => some (m, .ret false)
+  -- `mouseHandler.update`
+  | .define, .var x, .lit "[]hitResult{}" => some ({ m with x := { m.x with hitl := (x, []) :: m.x.hitl } }, .norm)
+  | .define, .var x, .arg (.arg (.arg (.call (.var "NewSubSurface")) (.int 0)) (.int 0)) (.var t) =>
+    (find m.x.tree t).map (fun tr => (bindTree m x tr, .norm))
+  | .assign, .var x, .arg (.arg (.arg (.arg (.call (.var "hitTest")) (.var t)) (.var x'))
+        (.arg (.call (.var "uint16")) (.var "r.mouse.Col"))) (.arg (.call (.var "uint16")) (.var "r.mouse.Row")) =>
+    match find m.x.tree t, find m.x.hitl x', m.vm.s.mouse with
+    | some tr, some hs, some (col, row) =>
+      some ({ m with x := { m.x with hitl := (x, hs ++ hitTest tr (u16 col) (u16 row)) :: m.x.hitl } }, .norm)
+    | _, _, _ => none
+  | .assign, .var "r.lastHits", .var x => (find m.x.hitl x).map (fun hs => (setS m { m.vm.s with lastHits := hs }, .norm))
+  -- `focusHandler.updatePath` (`r.lastFrame` is the focus handler's frame there)
+  | .assign, .var "r.lastFrame", .var t => (find m.x.tree t).map (fun tr => (setS m { m.vm.s with fhFrame := some tr }, .norm))
+  | .assign, .var "_", .arg (.arg (.call (.var "r.focusWidget")) (.var "v0")) (.var "r.root") =>
+    some (setS m (eFocusWidget e (fuel + 1) m.vm.s m.vm.s.root).1, .norm)
+  -- `App.handleCommand` (receiver `r` = the App)
+  | .exprS, .arg (.call (.var "r.handleCommand")) (.var c), _ =>
+    match find m.vm.cmds c with
+    | some cmd => (m.x.self m.vm.s cmd).map (fun s' => (setS m s', .norm))
+    | none => none
+  | .assign, .var "r.redraw", .var "true" => some (setS m { m.vm.s with redraw := true }, .norm)
+  | .assign, .var "r.refresh", .var "true" => some (setS m { m.vm.s with refresh := true }, .norm)
+  | .assign, .var "r.shouldQuit", .var "true" => some (setS m { m.vm.s with quit := true }, .norm)
+  | .assign, .var "r.consumeEvent", .var "true" => some (setS m { m.vm.s with consume := true }, .norm)
+  | .assign, .var "r.debug", .var "true" => some (setS m { m.vm.s with debug := true }, .norm)
+  | .define, .var x, .arg (.arg (.call (.var "r.fh.focusWidget")) (.var "r")) (.var c) =>
+    match find m.vm.cmds c with
+    | some (.focus w) =>
+      let r := eFocusWidget e (fuel + 1) m.vm.s w
+      some ({ m with vm := { m.vm with s := r.1, flags := (x, r.2) :: m.vm.flags } }, .norm)
+    | _ => none
+  | .exprS, .arg (.arg (.call (.var "log.Error")) _) _, _ => some (m, .norm)
+  | .exprS, .arg (.call (.var "r.vx.SetMouseShape")) (.arg (.call (.var "vaxis.MouseShape")) (.var c)), _ => vxCall m c
+  | .exprS, .arg (.call (.var "r.vx.SetTitle")) (.arg (.call (.var "string")) (.var c)), _ => vxCall m c
+  | .exprS, .arg (.call (.var "r.vx.ClipboardPush")) (.arg (.call (.var "string")) (.var c)), _ => vxCall m c
+  | .exprS, .arg (.arg (.call (.var "r.vx.Notify")) (.var "v1.Title")) (.var "v1.Body"), _ => vxCall m "v1"
+  | _, _, _ => liftRes m (atom e fuel ev m.vm l)
+
+/-- `for _, v := range <list of hit results>`, binding the whole struct. -/
+def rangeHits (v : String) (body : VMX → ResX) : List Hit → VMX → ResX
+  | [], m => some (m, .norm)
+  | h :: hs, m =>
+    match body (bindHit m v h) with
+    | none => none
+    | some (m', .brk) => some (m', .norm)
+    | some (m', .ret b) => some (m', .ret b)
+    | some (m', .contOut (n + 1)) => some (m', .contOut n)
+    | some (m', _) => rangeHits v body hs m'
+
+/-- `for _, v := range cmd` over the elements of a `BatchCmd` / `[]Command`. -/
+def rangeCmds (v : String) (body : VMX → ResX) : List Cmd → VMX → ResX
+  | [], m => some (m, .norm)
+  | c :: cs, m =>
+    match body { m with vm := { m.vm with cmds := (v, c) :: m.vm.cmds } } with
+    | none => none
+    | some (m', .brk) => some (m', .norm)
+    | some (m', .ret b) => some (m', .ret b)
+    | some (m', .contOut (n + 1)) => some (m', .contOut n)
+    | some (m', _) => rangeCmds v body cs m'
+
+def execX (e : EOracle) (fuel : Nat) (ev : Ev) : Stmt → VMX → ResX
+  | .skip, m => some (m, .norm)
+  | .atom l, m => atomX e fuel ev m l
+  | .seq a b, m =>
+    match execX e fuel ev a m with
+    | some (m', .norm) => execX e fuel ev b m'
+    | r => r
+  | .ite (.un "!" (.call (.var "r.findPath"))) t el, m =>        -- `if !f.findPath() { … }`: the call sets `f.path`
+    let r := findPath m.vm.s
+    if r.2 then execX e fuel ev el (setS m r.1) else execX e fuel ev t (setS m r.1)
+  | .ite c t el, m =>
+    match evBoolX m c with
+    | none => none
+    | some true => execX e fuel ev t m
+    | some false => execX e fuel ev el m
+  | .rangeOver _ v (.var l) body, m =>
+    match evHits m l with
+    | some hs => rangeHits v (execX e fuel ev body) hs m
+    | none =>
+      match find m.vm.cmds l with
+      | some (.batch cs) => rangeCmds v (execX e fuel ev body) cs m
+      | some (.slice cs) => rangeCmds v (execX e fuel ev body) cs m
+      | _ => none
+  | .sw true (.lit "v1 := v0.(type)") cases, m =>               -- `switch cmd := cmd.(type)`
+    match find m.vm.cmds "v0" with
+    | none => none
+    | some c =>
+      match execX e fuel ev cases { m with vm := { m.vm with cmds := ("v1", c) :: m.vm.cmds } } with
+      | some (m', .brk) => some (m', .norm)
+      | r => r
+  | .case label body rest, m =>
+    match find m.vm.cmds "v1" with
+    | none => none
+    | some c =>
+      if labelTok label = cmdType c then
+        execX e fuel ev body (setS m { m.vm.s with trace := m.vm.s.trace ++ armEff c })
+      else execX e fuel ev rest m
+  | _, _ => none
+
+def vm0 (s : St) : VM := ⟨s, [], [], [], [], []⟩
+
+/-- `mouseHandler.update(app, s)` run from its body (parameter `v1 = s`, the surface). -/
+def runMouseUpdate (body : Stmt) (e : EOracle) (fuel : Nat) (s : St) (t : STree) : Option (St × Bool) :=
+  match execX e fuel .init body (bindTree ⟨vm0 s, {}⟩ "v1" t) with
+  | some (m, .ret b) => some (m.vm.s, b)
+  | some (m, _) => some (m.vm.s, false)
+  | none => none
+
+/-- `focusHandler.updatePath(app, root)` run from its body (parameter `v1 = root`, the surface); `fuel` = the nesting
+    budget of the `app.handleCommand` calls inside the best-effort `focusWidget`. -/
+def runUpdatePath (body : Stmt) (e : EOracle) (fuel : Nat) (s : St) (t : STree) : Option St :=
+  match execX e fuel .init body (bindTree ⟨vm0 s, {}⟩ "v1" t) with
+  | some (m, _) => some m.vm.s
+  | none => none
+
+/-- `App.handleCommand(cmd)` run from its body (parameter `v0 = cmd`); the recursive `a.handleCommand(c)` of the two
+    batch arms runs the body again (`d` bounds that recursion; `runHandleCommand` gives it the nesting depth of the
+    command); `a.fh.focusWidget(a, cmd)` is the model's `eFocusWidget e (fuel + 1)` (the `handleCommand`s nested in it
+    have budget `fuel`). -/
+def runHandleCommandD (body : Stmt) (e : EOracle) (fuel : Nat) : Nat → St → Cmd → Option St
+  | 0, _, _ => none
+  | d + 1, s, c =>
+    match execX e fuel .init body ⟨⟨s, [], [], [("v0", c)], [], []⟩, { self := runHandleCommandD body e fuel d }⟩ with
+    | some (m, _) => some m.vm.s
+    | none => none
+
+def runHandleCommand (body : Stmt) (e : EOracle) (fuel : Nat) (s : St) (c : Cmd) : Option St :=
+  runHandleCommandD body e fuel (cmdDepth c + 1) s c
+
 end VaxisModel.Model.VxfwInterp
